@@ -229,15 +229,26 @@ def rule_pruning_radius(ctx):
                 rhs = toks(c['inner'][1])
                 if rhs[0] == 'bin' and rhs[1] == '*' and rhs[2] == rhs[3] and rhs[2][0] == 'id':
                     rp = rhs[2][1]
+                    rp_ids = {x['referencedDecl'].get('id') for x in walk(c['inner'][1]) if x.get('kind') == 'DeclRefExpr' and x['referencedDecl'].get('name') == rp}
         anchor(rp is not None, 'opening test r2 < rp*rp around the recursion of %s' % fname)
         init = None
         for d in walk(cfront.body(fn)):
-            if d.get('kind') == 'VarDecl' and d.get('name') == rp and 'init' in d:
+            if d.get('kind') == 'VarDecl' and d.get('name') == rp and 'init' in d and d.get('id') in rp_ids:
                 ini = [c_ for c_ in d.get('inner', []) if c_.get('kind') not in ('FullComment',)]
                 t_ = toks(ini[-1])
-                if any(x.get('kind') == 'MemberExpr' and x.get('name') == 'w' for x in walk(ini[-1])):
-                    init = (t_, line_of(d))
-        anchor(init is not None, 'opening radius %s = ... + k*c->w in %s' % (rp, fname))
+                init = (t_, line_of(d))
+        anchor(init is not None, 'declaration of the opening radius %s tested in %s' % (rp, fname))
+        # locals that merely name a sub-expression are inlined (const double halfdiag = 0.866*c->w; rp = ... + halfdiag)
+        from .pairloops import resolve as _resolve
+        lets_ = {}
+        for d in walk(cfront.body(fn)):
+            if d.get('kind') == 'VarDecl' and 'init' in d and d.get('name') != rp and 'double' in qtype(d) and '*' not in qtype(d):
+                ini = [c_ for c_ in d.get('inner', []) if c_.get('kind') not in ('FullComment',)]
+                if ini:
+                    lets_.setdefault(d['name'], toks(ini[-1]))
+        pn = {p_.get('name') for p_ in cfront.params(fn)}
+        lets_ = {k_: v_ for k_, v_ in lets_.items() if k_ not in pn}
+        init = (_resolve(init[0], lets_), init[1])
         terms = [render(t_).replace(' ', '') for t_ in _sum_terms(init[0])]
         where = 'src/collision.c:%s %s' % (init[1], fname)
         need = [(spec['p1'], 'the search radius of particle 1 (%s)' % spec['p1'], lambda ts, nm=spec['p1']: nm in ts),
